@@ -579,15 +579,74 @@ Qed.
 
 (* ---- DeepCopy ---- *)
 
-(* a pointer receiver: None = nil *)
-Definition deep_copy (fuel : nat) (G : pkg) (ms : list method) (n : bytes) (p : option value) (h : heap)
-  : res (option value * heap) :=
-  match p with
-  | None => Ok (None, h)                                   (* if in == nil { return nil } *)
-  | Some v => let! (v', h') := exec_copy fuel G ms n v h in Ok (Some v', h')
-  end.
+(* [deep_copy] / [deep_copy_map] (Model/DeepCopy.v) execute the statements of the declared DeepCopy method, the receiver
+   possibly nil.  On a non-nil receiver they are [exec_copy] / [exec_copy_map]; on nil the guard statement returns nil. *)
+Lemma find_ptr_copy_has : forall ms n,
+  find_ptr_copy ms n = if has_ptr_copy ms n then Some [CNilGuard; CNew; CCallInto; CReturnOut] else None.
+Proof.
+  induction ms as [|m ms IH]; intros n; [reflexivity|].
+  destruct m; cbn [find_ptr_copy has_ptr_copy]; try apply IH.
+  destruct (bytes_eqb t n); [reflexivity|]. cbn [orb]. apply IH.
+Qed.
 
-Lemma deep_copy_nil : forall fuel G ms n h, deep_copy fuel G ms n None h = Ok (None, h).
+Lemma find_map_copy_has : forall ms n,
+  find_map_copy ms n =
+  if existsb (fun m => match m with MMapCopy t => bytes_eqb t n | _ => false end) ms
+  then Some [CNilGuard; CMake; CCallInto; CReturnOut] else None.
+Proof.
+  induction ms as [|m ms IH]; intros n; [reflexivity|].
+  destruct m; cbn [find_map_copy existsb orb]; try apply IH.
+  destruct (bytes_eqb t n); [reflexivity|]. cbn [orb]. apply IH.
+Qed.
+
+Lemma deep_copy_some : forall fuel G ms n v h,
+  deep_copy fuel G ms n (Some v) h = let! (v', h') := exec_copy fuel G ms n v h in Ok (Some v', h').
+Proof.
+  intros fuel G ms n v h. unfold deep_copy, exec_copy. rewrite find_ptr_copy_has.
+  destruct (has_ptr_copy ms n); [|reflexivity]. cbn [run_ptr_copy].
+  destruct (exec_into fuel G ms n v (zero_like v) h) as [[v' h']| |]; reflexivity.
+Qed.
+
+Lemma deep_copy_nil : forall fuel G ms n h,
+  has_ptr_copy ms n = true -> deep_copy fuel G ms n None h = Ok (None, h).
+Proof. intros fuel G ms n h H. unfold deep_copy. rewrite find_ptr_copy_has, H. reflexivity. Qed.
+
+(* the guard is what makes it so: the same body without its first statement does not return nil on a nil receiver
+   (whatever DeepCopyInto does), and a type without a declared DeepCopy method has no result at all *)
+Lemma nil_guard_needed : forall into h r,
+  run_ptr_copy into None [CNew; CCallInto; CReturnOut] OUndeclared h <> Ok r /\
+  run_ptr_copy into None [CNew; CReturnOut] OUndeclared h <> Ok (None, h).
+Proof. intros into h r. split; cbn; discriminate. Qed.
+
+Lemma deep_copy_undeclared : forall fuel G ms n p h, has_ptr_copy ms n = false -> deep_copy fuel G ms n p h = Panic.
+Proof. intros fuel G ms n p h H. unfold deep_copy. rewrite find_ptr_copy_has, H. reflexivity. Qed.
+
+Lemma write_last : forall (h : heap) c c', write (h ++ [c]) (List.length h) c' = h ++ [c'].
+Proof. induction h as [|x h IH]; intros c c'; [reflexivity|]. cbn. rewrite IH. reflexivity. Qed.
+
+Lemma deep_copy_map_is_exec_copy_map : forall ms n l h,
+  has_map_methods ms n = true -> cell_is_map h l ->
+  deep_copy_map ms n (VMap l) h = exec_copy_map ms n (VMap l) h.
+Proof.
+  intros ms n l h Hm Hc. unfold deep_copy_map, exec_copy_map. rewrite Hm.
+  unfold has_map_methods in Hm. apply Bool.andb_true_iff in Hm. destruct Hm as [H1 H2].
+  rewrite find_map_copy_has, H1. unfold has_map_into. rewrite H2.
+  destruct l as [a|]; [|reflexivity]. destruct Hc as [es He].
+  cbn [run_map_copy alloc copy_map_cell]. rewrite (nth_error_ext h [CMap []] a _ He), He.
+  rewrite write_last. reflexivity.
+Qed.
+
+Lemma deep_copy_map_nil_guard : forall ms n h,
+  has_map_methods ms n = true -> deep_copy_map ms n (VMap None) h = Ok (VMap None, h).
+Proof.
+  intros ms n h Hm. unfold deep_copy_map.
+  unfold has_map_methods in Hm. apply Bool.andb_true_iff in Hm. destruct Hm as [H1 H2].
+  rewrite find_map_copy_has, H1. reflexivity.
+Qed.
+
+(* without the guard: make + an empty range returns a non-nil empty map *)
+Lemma map_nil_guard_needed : forall h,
+  run_map_copy true None [CMake; CCallInto; CReturnOut] None h = Ok (VMap (Some (List.length h)), h ++ [CMap []]).
 Proof. reflexivity. Qed.
 
 Lemma deep_copy_map_nil : forall ms n h,
